@@ -4,6 +4,7 @@
    function.  [consistent N h p f s0]: f consecutively numbered slots starting at position p with number s0, the rest blank. *)
 From Coq Require Import List NArith Arith.
 Require Import OrigRing OrigStart.
+Require Import Nor Mgr V1 OrigConf.
 Import ListNotations.
 
 (* for every slot count 2 <= N < 2^32 - 1, rotation p, fill level f and starting number s0 (the wrap across 2^32 - 1 included:
@@ -41,8 +42,20 @@ Theorem c20_allocation_keeps_ring_consistent : forall N_ h p f s0, (2 <= N_)%nat
   else consistent N_ h1 p (S f) s0.
 Proof. exact place_consistent. Qed.
 
+(* third clause, on the byte-level model of the deprecated manager's write_segment_internal (V1.v1_write with orig = true; the
+   correspondence check runs the same fragment writes through original-flash-algo and compares results and the program log):
+   for every manager geometry, updater state, fragment index, payload, payload length, scratch length and device state - faults
+   armed or not, whatever the call returns - the call erases nothing and programs at most two ranges (payload, status byte), both
+   inside the slot the fragment index belongs to (1..tf firmware slot, tf+1..tf+tp parity slot).  The proof uses the range check
+   DATA_REGION_OFFSET + (i + 1) * size <= slot size; with the pre-fix expression (i + 1) * size <= slot size it does not go through *)
+Theorem c20_fragment_writes_stay_in_slot : forall m u idx1 payload plen rlen d,
+  let '(d', _, _) := v1_write true m u idx1 payload plen rlen d in
+  exists news, dlog d' = news ++ dlog d /\ (length news <= 2)%nat /\ Forall (prog_in m (frag_slot u idx1)) news.
+Proof. exact orig_write_in_slot. Qed.
+
 Print Assumptions c20_ring_find_oldest.
 Print Assumptions c20_start_takes_next_two.
 Print Assumptions c20_allocation_keeps_ring_consistent.
 Print Assumptions c20_next_seq_mod.
 Print Assumptions c20_next_seq_never_reserved.
+Print Assumptions c20_fragment_writes_stay_in_slot.
